@@ -228,7 +228,7 @@ CHECKS = {
    design='5/C15'),
  'C20': dict(
    text='PARTIAL. The compiled extensions cannot be built here (no Cython). Instead the scalar kernels of the four .pyx sources are translated to Lean '
-        'definitions on every run (harness/gen_pyx.py; 26 scalar kernels and 3 one-dimensional array reductions translated, the nested station / sample loops are listed as not translated) and 18 theorems '
+        'definitions on every run (harness/gen_pyx.py; 27 scalar kernels (one of them, the acceptance rule, with its function-pointer arguments as function parameters) and 3 one-dimensional array reductions translated, the nested station / sample loops are listed as not translated) and 18 theorems '
         'over the reals state that they equal the models of the pure-Python paths: Gaussian pdf/cdf (both modules), manual-polarity and '
         'polarity-probability station likelihoods, the ratio density for modelled amplitudes of either sign, the inverse-variance step, the '
         'per-station scale estimate, the proposal ratio for full-tensor and double-couple moves (= ratio of the Python transition '
